@@ -124,6 +124,7 @@ class Cycle:
         def pv(S, x): return z3.Const(f'{x.decl().name()}@{tag}', x.sort())
         self.chunks = [tuple(pv(root_s, x) for x in ch) for hc in root_s.P.hop_chunks for ch in hc] + \
                       [tuple(pv(S_, x) for x in ch) for S_ in (ts_s, sn_s, tg_s) for ch in S_.P.chunks]
+        self.limits = [pv(S_, S_.P.maxsz) for S_ in (root_s, ts_s, sn_s, tg_s)]
         self.served = {'ts': pv(ts_s, ts_s.P.served), 'sn': pv(sn_s, sn_s.P.served), 'tg': pv(tg_s, tg_s.P.served)}
         self.env = {'ts': {k: pv(ts_s, ts_s.P[k]) for k in ('served_parses', 'fetch_err')},
                     'sn': {k: pv(sn_s, sn_s.P[k]) for k in ('served_parses', 'fetch_err')},
@@ -131,20 +132,31 @@ class Cycle:
                     'root': {'hop_fetch_err': [pv(root_s, x) for x in root_s.P.hop_fetch_err], 'hop_parses': [pv(root_s, x) for x in root_s.P.hop_parses],
                              'shipped_parses': pv(root_s, root_s.P.shipped_parses), 'max_updates': pv(root_s, root_s.P.max_updates)}}
 
-EMPTY_DS = {f: (z3.BoolVal(False), z3.BoolVal(False), z3.BitVecVal(0, 8)) for f in DSFILES}
+class _Empty(dict):
+    def __missing__(self, f): return (z3.BoolVal(False), z3.BoolVal(False), z3.BitVecVal(0, 8))
+EMPTY_DS = _Empty()
 
 def build_summaries(I, hops=1, io_faults=False, klens=((1, 1),), safe=False):
-    """summaries for a history check: clock disabled (enforcement off) so that only the rollback machinery is in play"""
-    sums = []
-    for name, pf, sf in (('root', root_params, summarize_load_root), ('ts', ts_params, summarize_load_timestamp),
-                         ('sn', sn_params, summarize_load_snapshot), ('tg', tg_params, summarize_load_targets)):
-        P = pf(hops, 1, 'h' + name) if name == 'root' else pf(1, 'h' + name)
-        P['lkt_present'] = z3.BoolVal(False)
-        if not safe: P['safe'] = z3.BoolVal(False)
-        P['join_fails'] = z3.BoolVal(False)
-        kw = {'io_faults': io_faults}
-        if name == 'root': kw['klens'] = klens
-        if name == 'tg': kw['no_deleg'] = True
-        paths = sf(I, P, **kw)
-        sums.append(FnSummary(name, paths, P))
+    """summaries for a history check: clock disabled (enforcement off) so that only the rollback machinery is in play.
+    If the code touches datastore files other than the three trust files (temporary files ...), those become slots of the
+    datastore state too and the summaries are rebuilt over the extended state."""
+    for attempt in range(3):
+        sums = []; extra = set()
+        for name, pf, sf in (('root', root_params, summarize_load_root), ('ts', ts_params, summarize_load_timestamp),
+                             ('sn', sn_params, summarize_load_snapshot), ('tg', tg_params, summarize_load_targets)):
+            P = pf(hops, 1, 'h' + name) if name == 'root' else pf(1, 'h' + name)
+            P['lkt_present'] = z3.BoolVal(False)
+            if not safe: P['safe'] = z3.BoolVal(False)
+            P['join_fails'] = z3.BoolVal(False)
+            kw = {'io_faults': io_faults}
+            if name == 'root': kw['klens'] = klens
+            if name == 'tg': kw['no_deleg'] = True
+            paths = sf(I, P, **kw)
+            for p in paths:
+                for k in p.fs:
+                    f = k[len('/ds/'):] if k.startswith('/ds/') else None
+                    if f and f not in DSFILES and f != 'latest_known_time.json' and '{' not in f: extra.add(f)
+            sums.append(FnSummary(name, paths, P))
+        if not extra: return sums
+        DSFILES.extend(sorted(extra))
     return sums
